@@ -15,6 +15,10 @@ from .common import ROOT
 SCRATCH = os.path.join(ROOT, ".work")
 
 
+def _refuse():
+    raise RuntimeError("not applicable")
+
+
 def _views(TdmsFile, path):
     out = {}
     out["read"] = proj.project_file(TdmsFile.read(path, raw_timestamps=True))
@@ -166,7 +170,13 @@ def replay_index_case(case):
                             if len(ch) == 0:
                                 continue
                             for how, fn in (("slice", lambda c: c[:]), ("read_data", lambda c: c.read_data()),
-                                            ("index", lambda c: c[0]), ("chunks", lambda c: list(c.data_chunks()))):
+                                            ("index", lambda c: c[0]), ("chunks", lambda c: list(c.data_chunks())),
+                                            ("iterate", lambda c: list(c)),
+                                            ("file_chunks", lambda c: list(fo.data_chunks()) if api == "open" else _refuse()),
+                                            # requests that select no value are data reads all the same
+                                            ("read_data(0, 0)", lambda c: c.read_data(0, 0)),
+                                            ("read_data(len + 1)", lambda c: c.read_data(len(c) + 1)),
+                                            ("read_data(scaled=False)", lambda c: c.read_data(scaled=False))):
                                 try:
                                     r = fn(ch)
                                     fails.append((sig("index-only-returned-data", how=how),
